@@ -11,6 +11,32 @@ from collections import defaultdict, deque
 # --------------------------------------------------------------------------------------------
 # loading
 
+# Named constants whose *identity* the rules rely on (the limit and the growth step of the buffers): they stay symbolic.  Every other named
+# integer / byte / bool / char constant of the crate is a spelling of its value - a maintainer who writes `const FRAME_TERMINATOR: u8 = b'\0'`
+# for a literal has not changed the program - so operands that name one also carry the evaluated value, and rules that look for the literal
+# (`== 0`, `Some(4)`, capacity 1) see it.
+SYMBOLIC_CONSTS = {'MAX_BUFFER_SIZE', 'BUFFER_SIZE'}
+
+
+def _resolve_named_consts(doc, consts):
+    vals = {p: c['val'] for p, c in consts.items() if c.get('kind') == 'const' and 'val' in c and p.split('::')[-1] not in SYMBOLIC_CONSTS}
+    if not vals:
+        return
+
+    def visit(o):
+        if isinstance(o, dict):
+            if o.get('k') == 'const' and o.get('def') and 'val' not in o and o['def'] in vals:
+                o['val'] = vals[o['def']]
+                o['named'] = o['def']
+            for v in o.values():
+                visit(v)
+        elif isinstance(o, list):
+            for v in o:
+                visit(v)
+    for b in doc.get('bodies', []):
+        visit(b.get('blocks'))
+
+
 class Crate:
     def __init__(self, doc, fname):
         self.doc = doc
@@ -25,6 +51,7 @@ class Crate:
         for b in self.bodies:
             self.by_path.setdefault(b.path, b)
         self.consts = {c['path']: c for c in doc.get('consts', [])}
+        _resolve_named_consts(doc, self.consts)
         self.impls = doc.get('impls', [])
         self.adts = {a['path']: a for a in doc.get('adts', [])}
         self.raw_bodies = self.bodies
